@@ -180,6 +180,13 @@ def check(ctx, rep):
     rep.rule("R15d", "attribute content lines carry the one-space prefix (shared with C13/R13d)", floor=1)
     rep.rule("R15f", "item information is computed from the files of this request alone: no module- or class-level state written by the Gopher+ renderer or the entry population", floor=1)
     rep.rule("R15g", "handlers build item information without looking at the protocol that asks (the listing cache and +INFO/attribute blocks are shared by all protocols)", floor=1)
+    rep.rule("R15k", "= R08d: merging a link-file block into a file's entry adds the block's attributes to the file's own side-file blocks - it does "
+             "not replace them (mergeentries evaluated on model entries)", floor=0)
+    from .c08 import _merge_by_evaluation
+    umn_ = ctx.cls("handlers.UMN.UMNDirHandler")
+    me_ = prog.resolve_method(umn_, "mergeentries") if umn_ else None
+    if me_ is not None and not _merge_by_evaluation(ctx, rep, umn_, me_, rule="R15k"):
+        rep.ok("R15k", "mergeentries: decided by its shape under C08 (R08d), the evaluation could not follow it", ctx.where(me_), "", key="R15k|shape", nontrivial=False)
     rep.rule("R15e", "sidecar reader: per configured extension, text lines right-stripped and newline-joined into the block", floor=1)
     gp = ctx.cls("protocols.gopherp.GopherPlusProtocol")
     plain = ctx.cls("protocols.rfc1436.GopherProtocol")
